@@ -91,12 +91,9 @@ def indepBits (cfg : Cfg Suppr) (c a : State Suppr) (tr : Trace Suppr) : String 
   boolStr (staleRemarksOK c.remarks a.remarks tr.evs) ++
   boolStr (leakOK cfg c a tr.evs)
 
-/-- the run, file by file, with the hypotheses evaluated on the state each file starts from -/
-def runAll (cfg : Cfg Suppr) (init : State Suppr) : State Suppr → List (Trace Suppr) → List (FileResult × String)
-  | _, [] => []
-  | st, tr :: rest =>
-    let r := checkFile cfg st tr
-    (r.2, indepBits cfg st init tr) :: runAll cfg init r.1 rest
+/-- the five hypotheses for the k-th file, on the state `Model.stateAfter` gives for its predecessors -/
+def bitsAt (cfg : Cfg Suppr) (init : State Suppr) (trs : List (Trace Suppr)) (k : Nat) (tr : Trace Suppr) : String :=
+  indepBits cfg (stateAfter cfg id init (trs.take k)) init tr
 
 def step (line : String) : String :=
   match fields line with
@@ -105,9 +102,11 @@ def step (line : String) : String :=
     | [e, c, x], some ini, some trs =>
       let cfg := realCfg x c e []
       let init := initState ini
-      let rs := runAll cfg init init trs
-      let per := rs.map (fun (r, bits) => s!"F={tags r.forwarded};R={tags r.recorded};E={r.exit};I={bits}")
-      let sh := shown e (fun y => y.text) (stream (rs.map (·.1)) [])
+      -- the run is `Model.runSingle` itself (analysis function = identity on the traces)
+      let rs := runSingle cfg id init trs
+      let bits := (List.range trs.length).zip trs |>.map (fun (k, tr) => bitsAt cfg init trs k tr)
+      let per := (rs.zip bits).map (fun (r, b) => s!"F={tags r.forwarded};R={tags r.recorded};E={r.exit};I={b}")
+      let sh := shown e (fun y => y.text) (stream rs [])
       " ".intercalate per ++ " SHOWN=" ++ tags sh
     | _, _, _ => "bad-op"
   | _ => "bad-op"
